@@ -152,6 +152,16 @@ CLAIMS = {
         note='Not decided: the wrapping index arithmetic for all completion permutations (runtime integers: a model checker or exploration harness is the right tool); '
              'queue[idx] in-bounds is assumed.',
         ref='DESIGN.md section 5 C04'),
+    'C20': dict(
+        technique='MIR wiring rules on the timer flags, timeout guards and the client keep-alive task (static analysis)',
+        text='Wiring only: KA_ENABLED is set exactly on the non-zero edge and cleared on the zero edge at both places that establish the keep-alive; a decoded frame clears '
+             'KA_TIMEOUT|READ_TIMEOUT and the partial-frame count; handle_timeout reports KeepAliveTimeout only under KA_TIMEOUT and ReadTimeout only under READ_TIMEOUT, its '
+             'arithmetic cannot underflow; keep-alive sources end in Control::proto and (v5) DISCONNECT 0x8D; the first handshake read is inside timeout_checked(connect_timeout), '
+             'version detection under Deadline(protocol_version_timeout), client connect under timeout_checked(handshake_timeout); all ten client start* variants spawn the '
+             'keep-alive task iff keepalive is non-zero, with the configured period; the task pings inside its loop and can leave the loop only through the closed-sink edge.',
+        note='Not decided - the property proper: every statement about WHEN timers fire ("live peers are never timed out", coarse-grid arrival patterns) quantifies over time and '
+             'needs execution. Only the necessary wiring conditions above are claimed.',
+        ref='DESIGN.md section 5 C20'),
 }
 
 NA_REASONS = {}
